@@ -57,6 +57,8 @@ type cworld struct {
 	commits  int
 	keyNames []string
 	evicted  map[string]bool // keys whose version map was dropped through StateCache.Remove: no must-hit afterwards
+	usedLeaves    []*util.LeafNode // leaf objects handed to the cache earlier (C07): re-used with a payload edited in place
+	reusedObjects int
 }
 
 func newWorld(r *rand.Rand, nkeys int, mutable bool) *cworld {
@@ -297,7 +299,26 @@ func (w *cworld) wantContent(tok string) string {
 func (w *cworld) newToken(b *cblock, key string) (tok string, val statecache.Value) {
 	w.seq++
 	id := fmt.Sprintf("%s#%d/%s", b.hash, w.seq, key)
+	if w.mutable && len(w.usedLeaves) > 0 && w.r.Intn(8) == 0 {
+		// a node object that was handed to the cache before (and has been encoded / hashed by it) is given a new payload by
+		// editing its value object in place, and is handed in again: what the cache keeps must be the new payload. The
+		// expected content comes from an equivalent node built from scratch.
+		x := w.usedLeaves[w.r.Intn(len(w.usedLeaves))]
+		_ = x.GetHashBytes() // the caller looked at the node's hash / encoding in its current state first
+		_ = x.Encode()
+		payload := []byte(id + ":reused:")
+		if sv, ok := x.GetValue().(*util.SecureSerializableValue); ok {
+			sv.Buffer = payload
+			fresh := util.NewLeafNode(append(util.Path(nil), x.Prefix...), append(util.Path(nil), x.Path...), x.GetOrigin(), &util.SecureSerializableValue{Buffer: append([]byte(nil), payload...)})
+			fresh.SetVersion(x.GetVersion())
+			w.reusedObjects++
+			return id + "|" + content(fresh), x
+		}
+	}
 	val = w.mkValue(id)
+	if ln, ok := val.(*util.LeafNode); ok && len(w.usedLeaves) < 32 {
+		w.usedLeaves = append(w.usedLeaves, ln)
+	}
 	return id + "|" + content(val), val
 }
 
